@@ -56,6 +56,10 @@ CHECKS = {
  "C19": dict(
   text="Whole-system deterministic simulation with a spoofing node and intruding control connections: sessions over UDP (reading client, recording client) and TCP; the spoofer forges perfectly valid RTP for the session and RTCP sender reports from another IP, another IP with the negotiated port, the negotiated IP with another port and IPv4-mapped forms, towards the client's and the server's media ports, with AnyPortEnable on and off and sources reported in 4- or 16-byte form; oracles: no forged packet reaches a packet callback, the session's inbound byte counter equals the bytes that arrived from the negotiated peer (wire tap), a legitimate peer that vanishes silently is expired on time although forged traffic keeps flowing; foreign control requests with the stolen session id (7 methods, set-up / streaming / paused states) from another IP - and from the same IP on another connection while the session streams interleaved - get an error status and leave state, medias and liveness of the session untouched.",
   note=WHOLE_NOTE, tech="deterministic simulation with fault injection: forged-source datagrams and stolen-session requests, callback/statistics/timeout oracle", ref="3.14"),
+ "C17": dict(
+  text="Whole-system deterministic simulation of RTSPS+SRTP sessions with wire taps and tampering: 1..2 medias x 1..3 formats (SSRC sets), server-side writer or recording client over UDP/TCP, readers over UDP/TCP joining late, pausing and resuming, sequence numbers starting just below 65535 so that the roll-over counter advances and late joiners receive a non-zero counter through MIKEY; RTP payloads and RTCP APP packets carry 16 marker bytes that must never appear in any UDP datagram, TCP byte stream or interleaved frame (tap above TLS); every delivered packet must be byte-identical to a written one although datagrams are corrupted (single bit / byte), lost, duplicated and reordered in transit; over TCP everything handed to the stream while the reader plays must arrive (each side decrypts what the other encrypts); plus the three downgrade refusals (secure profile on a plain server with a fully valid KeyMgmt header, unencrypted UDP on a TLS server, a real client redirected from rtsps to rtsp opens no plain connection).",
+  note=WHOLE_NOTE + " Tampering inside the TLS stream is not simulated (TLS authenticates it); client-managed keys (MKI) are exercised by C18.",
+  tech="deterministic simulation with fault injection: wire taps + in-transit corruption, delivery-identity oracle", ref="3.12"),
  "C18": dict(
   text="Whole-system deterministic simulation with wire taps: server and per-client MaxPacketSize from 32 to 1472 (and default), plain and RTSPS+SRTP (incl. client-managed keys with MKI), UDP and interleaved, packets swept around the limit (header + CSRC + extension + payload + padding; single and compound RTCP) through ServerStream, ServerSession and Client write entry points; every UDP datagram and interleaved-frame payload leaving a library endpoint (automatic reports and firewall-opening packets included) is measured against that endpoint's maximum, an oversize write must return an error and put nothing on the wire, and Start() must reject MaxPacketSize > 1472 and write-queue sizes that are not powers of two.",
   note=WHOLE_NOTE + " The multicast writer entry point and the HTTP/WebSocket tunnels are excluded; maxima below 32 are treated as degenerate.",
